@@ -26,7 +26,10 @@ inductive TEv where
 
 inductive Who where
   | job (id : Id)
+  /-- the main thread while it handles the completion of `at_` (`none` = while it creates the workload) -/
   | main (at_ : Option Id)
+  /-- the main thread after `exec` returned (all workers joined) -/
+  | mainEnd
   deriving Inhabited, DecidableEq
 
 structure Acc where
@@ -66,6 +69,13 @@ def parseEffect (ids : Array Id) : Sexp → Option Effect
   | .list [.atom "add", j] => .add <$> parseJob ids j
   | .list [.atom "rw", i, a, .atom m] => do some (.rewrite (← idAt ids i) (← parseAccess ids a) (m == "must"))
   | .list [.atom "skip", i] => .skip <$> idAt ids i
+  | .list [.atom "g", i, .atom st] => do
+    let st ← match st with
+      | "idle" => some GuardSt.idle
+      | "running" => some GuardSt.running
+      | "gone" => some GuardSt.gone
+      | _ => none
+    some (.guard (← idAt ids i) st)
   | _ => none
 
 def parseScript (ids : Array Id) (parts : List Sexp) : Option Script := do
@@ -95,6 +105,7 @@ def parseAcc (ids : Array Id) : Sexp → Option Acc
   | .list [.atom "a", who, .atom k, item] => do
     let who ← match who with
       | .list [.atom "m", .atom "init"] => some (Who.main none)
+      | .list [.atom "m", .atom "end"] => some Who.mainEnd
       | .list [.atom "m", i] => (fun x => Who.main (some x)) <$> idAt ids i
       | i => Who.job <$> idAt ids i
     some { who := who, write := k == "w", item := ← idAt ids item }
@@ -165,21 +176,31 @@ def lookupPos (l : List (Id × Nat)) (id : Id) : Option Nat := (l.find? (·.1 = 
 def interval (p : Pos) : Who → Option (Nat × Nat)
   | .job id => do some (← lookupPos p.launch id, ← lookupPos p.finish id)
   | .main none => some (0, 0)
+  | .mainEnd => some (1000000000, 1000000000)
   | .main (some id) => do let d ← lookupPos p.deliver id; some (d, d)
 
 def Who.show : Who → String
   | .job id => id.show
   | .main none => "main@init"
+  | .mainEnd => "main@end"
   | .main (some id) => s!"main@deliver({id.show})"
 
 /-- the fact whose truth forces "a is entirely before b" in every schedule; `none` = always true -/
-def orderGoal (launchAcc : Id → Option Access) (a b : Who) : Option (Option Fact) :=
+def orderGoal (sc : Script) (launchAcc : Id → Option Access) (a b : Who) : Option (Option Fact) :=
   match a, b with
   | .job k, .job j => (launchAcc j).map fun acc => some ⟨.fin k, j, acc⟩
-  | .job k, .main (some p) => if k = p then some none else (launchAcc p).map fun acc => some ⟨.fin k, p, acc⟩
-  | .main (some p), .job j => (launchAcc j).map fun acc => some ⟨.del p, j, acc⟩
+  | .job k, .main (some p) =>
+    -- the main thread acts at Deliver(p) only after it saw that `k` is no longer pending: program order of the main thread
+    if k = p || (sc.effects p).contains (.guard k .gone) then some none
+    else (launchAcc p).map fun acc => some ⟨.fin k, p, acc⟩
+  | .main (some p), .job j =>
+    -- the main thread acts at Deliver(p) only after it saw that `j` is not launched yet; it is the main thread that launches
+    if (sc.effects p).contains (.guard j .idle) then some none
+    else (launchAcc j).map fun acc => some ⟨.del p, j, acc⟩
   | .main none, _ => some none
+  | _, .mainEnd => some none
   | _, .main none => none
+  | .mainEnd, _ => none
   | .main (some _), .main (some _) => some none   -- same thread
 
 structure Conflict where
@@ -192,7 +213,7 @@ structure Conflict where
   goalKnown : Bool
 
 /-- (c): all pairs of accesses to one item by two different parties, one of them a write -/
-def conflictPairs (p : Pos) (launchAcc : Id → Option Access) (accs : List Acc) : List Conflict := Id.run do
+def conflictPairs (sc : Script) (p : Pos) (launchAcc : Id → Option Access) (accs : List Acc) : List Conflict := Id.run do
   let mut out : List Conflict := []
   let idx := accs.zipIdx
   for (w, wi) in idx do
@@ -201,14 +222,15 @@ def conflictPairs (p : Pos) (launchAcc : Id → Option Access) (accs : List Acc)
         if x.item = w.item && x.who ≠ w.who && (!x.write || wi < xi) then
           match interval p w.who, interval p x.who with
           | some (wl, wf), some (xl, xf) =>
-            let sameThread := match w.who, x.who with | .main _, .main _ => true | _, _ => false
+            let isMain (w : Who) := match w with | .job _ => false | _ => true
+            let sameThread := isMain w.who && isMain x.who
             let wFirst := wf < xl || (sameThread && wl ≤ xl)
             let xFirst := xf < wl || (sameThread && xl ≤ wl)
             if wFirst then
-              let g := orderGoal launchAcc w.who x.who
+              let g := orderGoal sc launchAcc w.who x.who
               out := { a := w.who, b := x.who, item := w.item, recordedOrdered := true, goal := g.getD none, goalKnown := g.isSome } :: out
             else if xFirst then
-              let g := orderGoal launchAcc x.who w.who
+              let g := orderGoal sc launchAcc x.who w.who
               out := { a := x.who, b := w.who, item := w.item, recordedOrdered := true, goal := g.getD none, goalKnown := g.isSome } :: out
             else
               out := { a := w.who, b := x.who, item := w.item, recordedOrdered := false, goal := none, goalKnown := false } :: out
@@ -269,7 +291,7 @@ def handle : Handler := fun s =>
     let launchAcc (id : Id) : Option Access := trace.findSome? fun
       | .launch i a _ => if i = id then some a else none
       | _ => none
-    let cs := conflictPairs (positions trace) launchAcc accs
+    let cs := conflictPairs sc (positions trace) launchAcc accs
     let goals := (cs.filterMap (·.goal)).eraseDups
     let mp := (MPTable.mk sc (if chk.ok then chk.table else [])).extend goals
     let mpValid := mp.valid
@@ -281,8 +303,20 @@ def handle : Handler := fun s =>
     let oracle := chk.ok && repOk && unorderedRec.isEmpty && unforced.isEmpty
     let nJobs := counts.getD 0 0
     let nSpawned := counts.getD 1 0
+    -- the one known shape (finding F-C02-1): GlyphOrder rewrites IR glyph X while `handle_success(Glyph X)` reads it on the
+    -- main thread to decide the BE glyph job's dependencies, and (then) that BE job reads X without waiting for GlyphOrder
+    let isGlyphOrderRace (c : Conflict) : Bool :=
+      c.item.disc == "IrGlyph" &&
+      (match c.a, c.b with
+       | .job w, .main (some p) => w.disc == "IrGlyphOrder" && p = c.item
+       | .main (some p), .job w => w.disc == "IrGlyphOrder" && p = c.item
+       | .job a, .job b => (a.disc == "IrGlyphOrder" && b.disc == "BeGlyfFragment") || (b.disc == "IrGlyphOrder" && a.disc == "BeGlyfFragment")
+       | _, _ => false)
+    let bad := unorderedRec ++ unforced
     let cls :=
       if !repOk then "replay"
+      else if chk.ok && !bad.isEmpty && bad.all isGlyphOrderRace then
+        (if bad.any (fun c => match c.a, c.b with | .job _, .job _ => true | _, _ => false) then "glyphorder-vs-beglyph-unordered" else "glyphorder-vs-deliver-irglyph")
       else if !unorderedRec.isEmpty then "conflict-unordered-in-trace"
       else if !chk.ok then "checkScript"
       else if !unforced.isEmpty then "conflict-order-not-forced"
@@ -297,7 +331,8 @@ def handle : Handler := fun s =>
       (if problems.isEmpty then "" else s!"log: {"; ".intercalate (problems.take 3)}; ") ++
       (if scriptSame then "" else s!"script differs from the reference run: {scriptDiff}; ")
     let tags := [srcTag, s!"threads{threads}", s!"jobs_{bucket nJobs}", s!"spawned{nSpawned}", s!"pairs_{bucket cs.length}",
-                 (if (s.field1? "jitter") == some (.atom "none") then "nojitter" else "jitter")] ++
+                 (if (s.field1? "delay") == some (.atom "lag") then "lag-schedule"
+                  else if (s.field1? "jitter") == some (.atom "none") then "nojitter" else "jitter")] ++
       (if scriptSame then [] else ["script-varies"]) ++ (if outSame then [] else ["output-varies"]) ++
       (if (counts.getD 3 0) > 0 then ["has-skips"] else [])
     some { corr := some corr, oracle := some oracle, nontrivial := nSpawned > 0, cls := cls, tags := tags,
